@@ -1,10 +1,367 @@
 import BU.Gen.Codec
 import BU.Model.Block
-/-! helper lemmas and proofs for `BU/Properties/C15_Gen.lean` (generated get_transaction_length = hand model) -/
+import BU.Proofs.LoopLemmas
+import BU.Properties.C17
+/-! Proof for `BU/Properties/C15_Gen.lean`: the *generated* `get_transaction_length` (four `for` loops, one nested, re-translated
+from /repo on every run) and the hand model `Model.txLength` succeed on the same byte strings with the same length.  Both
+sides are brought to one Option-level program (`tailO`); loops through `Loop.forIn_range_opt`, the CompactSize reader through
+the tier-T theorem `C17.parse_compact_size_eq_spec`.  Mathlib-free. -/
 namespace GenTxLen
-open Model
+open Model Py Loop Spec
+
+/-- `data[off:]` for an int offset (the translated slice has an explicit huge upper bound) -/
+theorem slice_from (data : Bytes) (hlen : data.length < 2 ^ 63) (off : Nat) :
+    slice data (off : Int) slEnd = data.drop off := by
+  unfold slice slEnd
+  rw [Int.toNat_natCast]
+  apply List.take_of_length_le
+  rw [List.length_drop]
+  have : (0x7fffffffffffffff : Int).toNat = 2 ^ 63 - 1 := by decide
+  rw [this]
+  omega
+
+/-- CompactSize at an offset: (value, bytes consumed) -/
+def cs (data : Bytes) (off : Nat) : Option (Nat × Nat) := decodeCompactSize (data.drop off)
+
+theorem pcs (data : Bytes) (hlen : data.length < 2 ^ 63) (off : Nat) :
+    (Gen.parse_compact_size (slice data (off : Int) slEnd)).toOption =
+      (cs data off).map (fun p => ((p.1 : Int), (p.2 : Int))) := by
+  rw [slice_from data hlen, cs, ← C17.parse_compact_size_eq_spec]
+  cases Gen.parse_compact_size (data.drop off) with
+  | error e => rfl
+  | ok v => rfl
+
+theorem skipCS_opt (data : Bytes) (off : Nat) :
+    (skipCS data off).toOption = (cs data off).map (fun p => (p.1, off + p.2)) := by
+  unfold skipCS cs
+  cases decodeCompactSize (data.drop off) with
+  | none => rfl
+  | some p => rfl
+
+/-! ### the four loops as partial steps on (size, length, offset) -/
+
+def gIn (data : Bytes) (s : Nat × Nat × Nat) : Option (Nat × Nat × Nat) :=
+  (cs data (s.2.2 + 36)).map (fun p => (p.2, p.1, s.2.2 + 36 + p.2 + (p.1 + 4)))
+def gOut (data : Bytes) (s : Nat × Nat × Nat) : Option (Nat × Nat × Nat) :=
+  (cs data (s.2.2 + 8)).map (fun p => (p.2, p.1, s.2.2 + 8 + p.2 + p.1))
+def gItem (data : Bytes) (s : Nat × Nat × Nat) : Option (Nat × Nat × Nat) :=
+  (cs data s.2.2).map (fun p => (p.2, p.1, s.2.2 + (p.2 + p.1)))
+def gStack (data : Bytes) (s : Nat × Nat × Nat × Nat) : Option (Nat × Nat × Nat × Nat) :=
+  (cs data s.2.2.2).bind (fun p =>
+    (iterOpt (gItem data) p.1 (p.2, s.2.2.1, s.2.2.2 + p.2)).map (fun t => (t.1, p.1, t.2.1, t.2.2)))
+
+theorem scanInputs_opt (data : Bytes) (n : Nat) (s : Nat × Nat × Nat) :
+    (scanInputs data n s.2.2).toOption = (iterOpt (gIn data) n s).map (·.2.2) := by
+  induction n generalizing s with
+  | zero => rfl
+  | succ n ih =>
+    rw [scanInputs, iterOpt, toOption_bind, skipCS_opt, gIn]
+    cases cs data (s.2.2 + 36) with
+    | none => rfl
+    | some p =>
+      simp only [Option.map_some, Option.bind_some]
+      have := ih (p.2, p.1, s.2.2 + 36 + p.2 + (p.1 + 4))
+      simp only at this
+      rw [← this]
+      congr 2
+
+theorem scanOutputs_opt (data : Bytes) (n : Nat) (s : Nat × Nat × Nat) :
+    (scanOutputs data n s.2.2).toOption = (iterOpt (gOut data) n s).map (·.2.2) := by
+  induction n generalizing s with
+  | zero => rfl
+  | succ n ih =>
+    rw [scanOutputs, iterOpt, toOption_bind, skipCS_opt, gOut]
+    cases cs data (s.2.2 + 8) with
+    | none => rfl
+    | some p =>
+      simp only [Option.map_some, Option.bind_some]
+      have := ih (p.2, p.1, s.2.2 + 8 + p.2 + p.1)
+      simp only at this
+      rw [← this]
+
+theorem scanItems_opt (data : Bytes) (n : Nat) (s : Nat × Nat × Nat) :
+    (scanItems data n s.2.2).toOption = (iterOpt (gItem data) n s).map (·.2.2) := by
+  induction n generalizing s with
+  | zero => rfl
+  | succ n ih =>
+    rw [scanItems, iterOpt, toOption_bind, skipCS_opt, gItem]
+    cases cs data s.2.2 with
+    | none => rfl
+    | some p =>
+      simp only [Option.map_some, Option.bind_some]
+      have := ih (p.2, p.1, s.2.2 + (p.2 + p.1))
+      simp only at this
+      rw [← this]
+      congr 2
+      omega
+
+theorem scanStacks_opt (data : Bytes) (n : Nat) (s : Nat × Nat × Nat × Nat) :
+    (scanStacks data n s.2.2.2).toOption = (iterOpt (gStack data) n s).map (·.2.2.2) := by
+  induction n generalizing s with
+  | zero => rfl
+  | succ n ih =>
+    rw [scanStacks, iterOpt, toOption_bind, skipCS_opt, gStack]
+    cases cs data s.2.2.2 with
+    | none => rfl
+    | some p =>
+      simp only [Option.map_some, Option.bind_some]
+      rw [toOption_bind]
+      have hi := scanItems_opt data p.1 (p.2, s.2.2.1, s.2.2.2 + p.2)
+      simp only at hi
+      rw [hi]
+      cases iterOpt (gItem data) p.1 (p.2, s.2.2.1, s.2.2.2 + p.2) with
+      | none => rfl
+      | some t =>
+        simp only [Option.map_some, Option.bind_some]
+        have := ih (t.1, p.1, t.2.1, t.2.2)
+        simp only at this
+        exact this
+
+abbrev enc3 (s : Nat × Nat × Nat) : Int × Int × Int := ((s.1 : Int), (s.2.1 : Int), (s.2.2 : Int))
+abbrev enc4 (s : Nat × Nat × Nat × Nat) : Int × Int × Int × Int := ((s.1 : Int), (s.2.1 : Int), (s.2.2.1 : Int), (s.2.2.2 : Int))
+
+/-- everything after the marker test, at the Option level -/
+def tailO (data : Bytes) (off : Nat) (seg : Bool) : Option Nat :=
+  (cs data off).bind fun p =>
+  (iterOpt (gIn data) p.1 (p.2, 0, off + p.2)).bind fun s1 =>
+  (cs data s1.2.2).bind fun q =>
+  (iterOpt (gOut data) q.1 (q.2, s1.2.1, s1.2.2 + q.2)).bind fun s2 =>
+  if seg then (iterOpt (gStack data) p.1 (s2.1, 0, 0, s2.2.2)).map (fun s3 => s3.2.2.2 + 4)
+  else some (s2.2.2 + 4)
+
+theorem loopIn (data : Bytes) (hlen : data.length < 2 ^ 63) (k : Nat) (s0 : Nat × Nat × Nat) :
+    (forIn [:k] (enc3 s0) fun (__ : Nat) (__s : Int × Int × Int) => do
+        let t4 ← Gen.parse_compact_size (slice data (__s.snd.snd + 36) slEnd)
+        pure (ForInStep.yield (t4.snd, t4.fst, __s.snd.snd + 36 + t4.snd + (t4.fst + 4)))).toOption =
+      (iterOpt (gIn data) k s0).map enc3 := by
+  apply forIn_range_opt enc3 (gIn data)
+  intro i s
+  have e : ((s.2.2 : Int) + 36) = ((s.2.2 + 36 : Nat) : Int) := by omega
+  simp only [enc3]
+  rw [toOption_bind, e, pcs data hlen, gIn]
+  cases cs data (s.2.2 + 36) with
+  | none => rfl
+  | some p =>
+    simp only [Option.map_some, Option.bind_some, toOption_pure]
+    congr 3
+
+theorem loopOut (data : Bytes) (hlen : data.length < 2 ^ 63) (k : Nat) (s0 : Nat × Nat × Nat) :
+    (forIn [:k] (enc3 s0) fun (__ : Nat) (__s : Int × Int × Int) => do
+        let t6 ← Gen.parse_compact_size (slice data (__s.snd.snd + 8) slEnd)
+        pure (ForInStep.yield (t6.snd, t6.fst, __s.snd.snd + 8 + t6.snd + t6.fst))).toOption =
+      (iterOpt (gOut data) k s0).map enc3 := by
+  apply forIn_range_opt enc3 (gOut data)
+  intro i s
+  have e : ((s.2.2 : Int) + 8) = ((s.2.2 + 8 : Nat) : Int) := by omega
+  simp only [enc3]
+  rw [toOption_bind, e, pcs data hlen, gOut]
+  cases cs data (s.2.2 + 8) with
+  | none => rfl
+  | some p =>
+    simp only [Option.map_some, Option.bind_some, toOption_pure]
+    congr 3
+
+theorem loopItem (data : Bytes) (hlen : data.length < 2 ^ 63) (k : Nat) (s0 : Nat × Nat × Nat) :
+    (forIn [:k] (enc3 s0) fun (___ : Nat) (__s : Int × Int × Int) => do
+        let t8 ← Gen.parse_compact_size (slice data __s.snd.snd slEnd)
+        pure (ForInStep.yield (t8.snd, t8.fst, __s.snd.snd + (t8.snd + t8.fst)))).toOption =
+      (iterOpt (gItem data) k s0).map enc3 := by
+  apply forIn_range_opt enc3 (gItem data)
+  intro i s
+  simp only [enc3]
+  rw [toOption_bind, pcs data hlen, gItem]
+  cases cs data s.2.2 with
+  | none => rfl
+  | some p =>
+    simp only [Option.map_some, Option.bind_some, toOption_pure]
+    congr 3
+
+theorem loopStack (data : Bytes) (hlen : data.length < 2 ^ 63) (k : Nat) (s0 : Nat × Nat × Nat × Nat) :
+    (forIn [:k] (enc4 s0) fun (__ : Nat) (__s : Int × Int × Int × Int) => do
+        let t7 ← Gen.parse_compact_size (slice data __s.snd.snd.snd slEnd)
+        let __s ←
+          forIn [:t7.fst.toNat] (t7.snd, __s.snd.snd.fst, __s.snd.snd.snd + t7.snd) fun (___ : Nat) (__s : Int × Int × Int) => do
+              let t8 ← Gen.parse_compact_size (slice data __s.snd.snd slEnd)
+              pure (ForInStep.yield (t8.snd, t8.fst, __s.snd.snd + (t8.snd + t8.fst)))
+        pure (ForInStep.yield (__s.fst, t7.fst, __s.snd.fst, __s.snd.snd))).toOption =
+      (iterOpt (gStack data) k s0).map enc4 := by
+  apply forIn_range_opt enc4 (gStack data)
+  intro i s
+  simp only [enc4]
+  rw [toOption_bind, pcs data hlen, gStack]
+  cases cs data s.2.2.2 with
+  | none => rfl
+  | some p =>
+    simp only [Option.map_some, Option.bind_some, Int.toNat_natCast]
+    rw [toOption_bind]
+    have e : ((s.2.2.2 : Int) + (p.2 : Int)) = ((s.2.2.2 + p.2 : Nat) : Int) := by omega
+    rw [e]
+    have := loopItem data hlen p.1 (p.2, s.2.2.1, s.2.2.2 + p.2)
+    simp only [enc3] at this
+    rw [this]
+    cases iterOpt (gItem data) p.1 (p.2, s.2.2.1, s.2.2.2 + p.2) with
+    | none => rfl
+    | some t => rfl
+
+theorem tail_lemma (data : Bytes) (hlen : data.length < 2 ^ 63) (off : Nat) (seg : Bool) :
+    (do
+      let t3 ← Gen.parse_compact_size (slice data (off : Int) slEnd)
+      let __s ←
+        forIn [:t3.fst.toNat] (t3.snd, 0, (off : Int) + t3.snd) fun (__ : Nat) (__s : Int × Int × Int) => do
+            let t4 ← Gen.parse_compact_size (slice data (__s.snd.snd + 36) slEnd)
+            pure (ForInStep.yield (t4.snd, t4.fst, __s.snd.snd + 36 + t4.snd + (t4.fst + 4)))
+      let t5 ← Gen.parse_compact_size (slice data __s.snd.snd slEnd)
+      let __s ←
+        forIn [:t5.fst.toNat] (t5.snd, __s.snd.fst, __s.snd.snd + t5.snd) fun (__ : Nat) (__s : Int × Int × Int) => do
+            let t6 ← Gen.parse_compact_size (slice data (__s.snd.snd + 8) slEnd)
+            pure (ForInStep.yield (t6.snd, t6.fst, __s.snd.snd + 8 + t6.snd + t6.fst))
+      if seg = true then do
+          let __s ←
+            forIn [:t3.fst.toNat] (__s.fst, 0, 0, __s.snd.snd) fun (__ : Nat) (__s : Int × Int × Int × Int) => do
+                let t7 ← Gen.parse_compact_size (slice data __s.snd.snd.snd slEnd)
+                let __s ←
+                  forIn [:t7.fst.toNat] (t7.snd, __s.snd.snd.fst, __s.snd.snd.snd + t7.snd) fun (___ : Nat) (__s : Int × Int × Int) => do
+                      let t8 ← Gen.parse_compact_size (slice data __s.snd.snd slEnd)
+                      pure (ForInStep.yield (t8.snd, t8.fst, __s.snd.snd + (t8.snd + t8.fst)))
+                pure (ForInStep.yield (__s.fst, t7.fst, __s.snd.fst, __s.snd.snd))
+          pure (__s.snd.snd.snd + 4)
+        else pure (__s.snd.snd + 4) : Except PyErr Int).toOption = (tailO data off seg).map Int.ofNat := by
+  rw [toOption_bind, pcs data hlen, tailO]
+  cases cs data off with
+  | none => rfl
+  | some p =>
+    simp only [Option.map_some, Option.bind_some, Int.toNat_natCast]
+    rw [toOption_bind]
+    have e1 : ((off : Int) + (p.2 : Int)) = ((off + p.2 : Nat) : Int) := by omega
+    rw [e1]
+    have h1 := loopIn data hlen p.1 (p.2, 0, off + p.2)
+    simp only [enc3] at h1
+    rw [show ((0 : Int)) = ((0 : Nat) : Int) from rfl, h1]
+    cases iterOpt (gIn data) p.1 (p.2, 0, off + p.2) with
+    | none => rfl
+    | some s1 =>
+      simp only [Option.map_some, Option.bind_some]
+      rw [toOption_bind, pcs data hlen]
+      cases cs data s1.2.2 with
+      | none => rfl
+      | some q =>
+        simp only [Option.map_some, Option.bind_some, Int.toNat_natCast]
+        rw [toOption_bind]
+        have e2 : ((s1.2.2 : Int) + (q.2 : Int)) = ((s1.2.2 + q.2 : Nat) : Int) := by omega
+        rw [e2]
+        have h2 := loopOut data hlen q.1 (q.2, s1.2.1, s1.2.2 + q.2)
+        simp only [enc3] at h2
+        rw [h2]
+        cases iterOpt (gOut data) q.1 (q.2, s1.2.1, s1.2.2 + q.2) with
+        | none => rfl
+        | some s2 =>
+          simp only [Option.map_some, Option.bind_some]
+          cases seg with
+          | false => rfl
+          | true =>
+            simp only [if_true]
+            rw [toOption_bind]
+            have h3 := loopStack data hlen p.1 (s2.1, 0, 0, s2.2.2)
+            simp only [enc4] at h3
+            rw [h3]
+            cases iterOpt (gStack data) p.1 (s2.1, 0, 0, s2.2.2) with
+            | none => rfl
+            | some s3 => rfl
+
+theorem beq_zero_cast (n : Nat) : ((n : Int) == 0) = (n == 0) := by cases n <;> rfl
+theorem bne_zero_cast (n : Nat) : ((n : Int) != 0) = (n != 0) := by cases n <;> rfl
+
+theorem index_opt (data : Bytes) (i : Nat) :
+    (Py.index data (i : Int)).toOption = (data[i]?).map (fun x => (x.toNat : Int)) := by
+  unfold Py.index
+  rw [if_neg (by omega), Int.toNat_natCast]
+  cases data[i]? <;> rfl
+
+/-- the model at the Option level -/
+theorem txLength_opt (data : Bytes) :
+    (txLength data).toOption =
+      (data[4]?).bind fun m => (data[5]?).bind fun f =>
+        tailO data (if (m.toNat == 0 && f.toNat != 0) then 6 else 4) (m.toNat == 0 && f.toNat != 0) := by
+  unfold txLength
+  rw [toOption_bind, show (4 : Int) = ((4 : Nat) : Int) from rfl, index_opt]
+  cases data[4]? with
+  | none => rfl
+  | some m =>
+    simp only [Option.map_some, Option.bind_some]
+    rw [toOption_bind, show (5 : Int) = ((5 : Nat) : Int) from rfl, index_opt]
+    cases data[5]? with
+    | none => rfl
+    | some f =>
+      simp only [Option.map_some, Option.bind_some]
+      have hseg : (((m.toNat : Int) == 0) && ((f.toNat : Int) != 0)) = (m.toNat == 0 && f.toNat != 0) := by
+        rw [beq_zero_cast, bne_zero_cast]
+      rw [hseg]
+      generalize (m.toNat == 0 && f.toNat != 0) = seg
+      generalize (if seg = true then 6 else 4) = off
+      rw [toOption_bind, skipCS_opt, tailO]
+      cases cs data off with
+      | none => rfl
+      | some p =>
+        simp only [Option.map_some, Option.bind_some]
+        rw [toOption_bind]
+        have h1 := scanInputs_opt data p.1 (p.2, 0, off + p.2)
+        simp only at h1
+        rw [h1]
+        cases iterOpt (gIn data) p.1 (p.2, 0, off + p.2) with
+        | none => rfl
+        | some s1 =>
+          simp only [Option.map_some, Option.bind_some]
+          rw [toOption_bind, skipCS_opt]
+          cases cs data s1.2.2 with
+          | none => rfl
+          | some q =>
+            simp only [Option.map_some, Option.bind_some]
+            rw [toOption_bind]
+            have h2 := scanOutputs_opt data q.1 (q.2, s1.2.1, s1.2.2 + q.2)
+            simp only at h2
+            rw [h2]
+            cases iterOpt (gOut data) q.1 (q.2, s1.2.1, s1.2.2 + q.2) with
+            | none => rfl
+            | some s2 =>
+              simp only [Option.map_some, Option.bind_some]
+              cases seg with
+              | false => rfl
+              | true =>
+                simp only [if_true]
+                rw [toOption_bind]
+                have h3 := scanStacks_opt data p.1 (s2.1, 0, 0, s2.2.2)
+                simp only at h3
+                rw [h3]
+                cases iterOpt (gStack data) p.1 (s2.1, 0, 0, s2.2.2) with
+                | none => rfl
+                | some s3 => rfl
 
 theorem gen_tx_length (data : Bytes) (hlen : data.length < 2 ^ 63) :
-    (Gen.get_transaction_length data).toOption = (txLength data).toOption.map Int.ofNat := by sorry
+    (Gen.get_transaction_length data).toOption = (txLength data).toOption.map Int.ofNat := by
+  rw [txLength_opt]
+  unfold Gen.get_transaction_length
+  simp only []
+  rw [toOption_bind, show ((0 : Int) + 4) = ((4 : Nat) : Int) from rfl, index_opt]
+  cases data[4]? with
+  | none => rfl
+  | some m =>
+    simp only [Option.map_some, Option.bind_some]
+    rw [toOption_bind, show (((4 : Nat) : Int) + 1) = ((5 : Nat) : Int) from rfl, index_opt]
+    cases data[5]? with
+    | none => rfl
+    | some f =>
+      simp only [Option.map_some, Option.bind_some]
+      have hseg : (((m.toNat : Int) == 0) && ((f.toNat : Int) != 0)) = (m.toNat == 0 && f.toNat != 0) := by
+        rw [beq_zero_cast, bne_zero_cast]
+      rw [hseg]
+      cases hs : (m.toNat == 0 && f.toNat != 0) with
+      | true =>
+        simp only [if_true]
+        have := tail_lemma data hlen 6 true
+        rw [show (((4 : Nat) : Int) + 2) = ((6 : Nat) : Int) from rfl]
+        exact this
+      | false =>
+        simp only [Bool.false_eq_true, if_false]
+        exact tail_lemma data hlen 4 false
 
 end GenTxLen
